@@ -57,23 +57,23 @@ var ipOf = map[string]string{"X": "10.0.0.1", "Y": "10.0.0.2", "": ""}
 
 type regexCfg struct {
 	label, ann *regexp.Regexp
-	expect     func(v int) []string
+	expect     func(v int, n string) []string // the tag values carry the pod's name: two pods never have the same tags
 }
 
 // key classes of getTagNameFromRegex: no match; named group with text; named group not participating / empty; no named group
 var cfgs = []regexCfg{
-	{regexp.MustCompile(`^(?:app|x(?P<tag>[a-z]*))$`), regexp.MustCompile(`^ann\.`), func(v int) []string {
+	{regexp.MustCompile(`^(?:app|x(?P<tag>[a-z]*))$`), regexp.MustCompile(`^ann\.`), func(v int, n string) []string {
 		// the labels app and xapp both derive the tag name "app": every matched key yields a tag
-		return []string{fmt.Sprintf("app:a%d", v), fmt.Sprintf("app:b%d", v), fmt.Sprintf("team:t%d", v), fmt.Sprintf("x:e%d", v), fmt.Sprintf("ann.k:n%d", v)}
+		return []string{fmt.Sprintf("app:a%d.%s", v, n), fmt.Sprintf("app:b%d.%s", v, n), fmt.Sprintf("team:t%d.%s", v, n), fmt.Sprintf("x:e%d.%s", v, n), fmt.Sprintf("ann.k:n%d.%s", v, n)}
 	}},
-	{nil, regexp.MustCompile(k8s.DefaultAnnotationTagRegex), func(v int) []string {
-		return []string{fmt.Sprintf("svc:s%d", v), fmt.Sprintf("app:c%d", v)}
+	{nil, regexp.MustCompile(k8s.DefaultAnnotationTagRegex), func(v int, n string) []string {
+		return []string{fmt.Sprintf("svc:s%d.%s", v, n), fmt.Sprintf("app:c%d.%s", v, n)}
 	}},
-	{regexp.MustCompile(`^app$`), regexp.MustCompile(k8s.DefaultAnnotationTagRegex), func(v int) []string { // a label and an annotation with one tag name
-		return []string{fmt.Sprintf("app:a%d", v), fmt.Sprintf("svc:s%d", v), fmt.Sprintf("app:c%d", v)}
+	{regexp.MustCompile(`^app$`), regexp.MustCompile(k8s.DefaultAnnotationTagRegex), func(v int, n string) []string { // a label and an annotation with one tag name
+		return []string{fmt.Sprintf("app:a%d.%s", v, n), fmt.Sprintf("svc:s%d.%s", v, n), fmt.Sprintf("app:c%d.%s", v, n)}
 	}},
-	{regexp.MustCompile(`^(?P<tag>app)$|^other$`), nil, func(v int) []string {
-		return []string{fmt.Sprintf("app:a%d", v), fmt.Sprintf("other:o%d", v)}
+	{regexp.MustCompile(`^(?P<tag>app)$|^other$`), nil, func(v int, n string) []string {
+		return []string{fmt.Sprintf("app:a%d.%s", v, n), fmt.Sprintf("other:o%d.%s", v, n)}
 	}},
 }
 
@@ -81,10 +81,10 @@ func podObj(name string, p podv) *core_v1.Pod {
 	pod := &core_v1.Pod{
 		ObjectMeta: meta_v1.ObjectMeta{
 			Name: name, Namespace: "ns",
-			Labels: map[string]string{"app": fmt.Sprintf("a%d", p.Ver), "xteam": fmt.Sprintf("t%d", p.Ver), "x": fmt.Sprintf("e%d", p.Ver), "other": fmt.Sprintf("o%d", p.Ver),
-				"xapp": fmt.Sprintf("b%d", p.Ver)},
-			Annotations: map[string]string{"ann.k": fmt.Sprintf("n%d", p.Ver), "zzz": fmt.Sprintf("z%d", p.Ver), "app": "shadow", k8s.AnnotationPrefix + "svc": fmt.Sprintf("s%d", p.Ver),
-				k8s.AnnotationPrefix + "app": fmt.Sprintf("c%d", p.Ver)},
+			Labels: map[string]string{"app": fmt.Sprintf("a%d.%s", p.Ver, name), "xteam": fmt.Sprintf("t%d.%s", p.Ver, name), "x": fmt.Sprintf("e%d.%s", p.Ver, name), "other": fmt.Sprintf("o%d.%s", p.Ver, name),
+				"xapp": fmt.Sprintf("b%d.%s", p.Ver, name)},
+			Annotations: map[string]string{"ann.k": fmt.Sprintf("n%d.%s", p.Ver, name), "zzz": fmt.Sprintf("z%d.%s", p.Ver, name), "app": "shadow", k8s.AnnotationPrefix + "svc": fmt.Sprintf("s%d.%s", p.Ver, name),
+				k8s.AnnotationPrefix + "app": fmt.Sprintf("c%d.%s", p.Ver, name)},
 		},
 		Spec:   core_v1.PodSpec{HostNetwork: p.Host},
 		Status: core_v1.PodStatus{PodIP: ipOf[p.IP], HostIP: "9.9.9.9", Phase: core_v1.PodPhase(p.Phase)},
@@ -198,7 +198,7 @@ func TestCases(t *testing.T) {
 				case s.Exp.Name != "" && inst == nil:
 					res.Fail("C13", "no-answer-for-current-pod", fmt.Sprintf("step %d %s(%s): nothing although pod %s v%d holds the IP; history %v", i, s.Op, s.IP, s.Exp.Name, s.Exp.Ver, textual), rec)
 				case s.Exp.Name != "":
-					want := cfg.expect(s.Exp.Ver)
+					want := cfg.expect(s.Exp.Ver, s.Exp.Name)
 					got := append([]string{}, inst.Tags...)
 					sort.Strings(want)
 					sort.Strings(got)
@@ -206,7 +206,7 @@ func TestCases(t *testing.T) {
 						res.Fail("C13", "wrong-pod", fmt.Sprintf("step %d: identity %s want ns/%s; history %v", i, inst.ID, s.Exp.Name, textual), rec)
 					} else if fmt.Sprint(got) != fmt.Sprint(want) {
 						sig := "wrong-tags"
-						other := cfg.expect(3 - s.Exp.Ver)
+						other := cfg.expect(3-s.Exp.Ver, s.Exp.Name)
 						sort.Strings(other)
 						if fmt.Sprint(got) == fmt.Sprint(other) {
 							sig = "stale-version"
